@@ -179,7 +179,7 @@ func (b *CCFeedbackReport) Unmarshal(rawPacket []byte) error {
 	b.ReportBlocks = []CCFeedbackReportBlock{}
 	for offset < reportTimestampOffset {
 		var block CCFeedbackReportBlock
-		if err := block.unmarshal(rawPacket[offset:]); err != nil {
+		if err := block.unmarshal(rawPacket[offset:reportTimestampOffset]); err != nil {
 			return err
 		}
 		b.ReportBlocks = append(b.ReportBlocks, block)
@@ -270,8 +270,7 @@ func (b *CCFeedbackReportBlock) unmarshal(rawPacket []byte) error {
 		return errIncorrectNumReports
 	}
 
-	endSequence := b.BeginSequence + numReportsField
-	numReports := int(endSequence - b.BeginSequence + 1)
+	numReports := int(numReportsField) + 1
 
 	if len(rawPacket) < reportsOffset+numReports*2 {
 		return errIncorrectNumReports
